@@ -58,6 +58,14 @@ def diff(spec, real, skip=()):
                     continue
                 b = {k: v for k, v in b.items() if k != "gone"}
                 if a != b:
+                    # when the time-to-live of a finished job starts (at finishing, or at the first
+                    # watchdog run after it - what the code does and TLC's behaviours assume) is not
+                    # fixed by any property: tolerated, and remembered so that the behaviour is cut
+                    # short before the next watchdog step, whose effect depends on it
+                    if b.get("done") and a.get("deadline") == 0 and b.get("deadline") and \
+                            dict(a, deadline=0) == dict(b, deadline=0) and isinstance(skip, set):
+                        skip.add("~eager-deadline")
+                        continue
                     out.append("jobs[%d]" % (i + 1))
         elif s[f] != r[f]:
             out.append(f)
@@ -141,6 +149,8 @@ def replay_one(hist, workers=None, clients=None, channels=None, after_step=None,
             for h in ops:
                 plan_from(prev, h["st"])
                 prev = h["st"]
+            if ops and "~eager-deadline" in skip and any(h["last"]["op"] == "watchdog" for h in ops):
+                return {"ok": True, "steps": steps_done, "skipped": "deadline start is free"}
             if ops:
                 e0 = len(d.events)
                 d.run_batch([to_op(h["last"]) for h in ops])
